@@ -78,7 +78,8 @@ CLAIMS = {
                  "scalar vs vectorised hats, normalisation."),
     "C17": bounded("Relational over configurations (reuse on/off, both sides of the 200-point threshold): no single-call contract expresses it; BOUNDED: both configurations run on the "
                    "same data and refinement history, surpluses/scheme/densities equal to 1e-9."),
-    "C18": bounded("numpy/sklearn-based bookkeeping outside the verified subset; BOUNDED: random operation sequences (<=8 ops over 14 operations) on data sets incl. empty, single, ties, "
+    "C18": bounded("numpy/sklearn-based bookkeeping mostly outside the verified subset (PROVED kernel: split_pieces cuts samples and labels at the same index, prefix/suffix, "
+                   "nothing lost); BOUNDED (deciding): random operation sequences (<=8 ops over 14 operations) on data sets incl. empty, single, ties, "
                    "unlabelled: range ends, revert restores, multiset of (sample,label) preserved, attributes carried, refusals without modification."),
     "C19": bounded("BOUNDED: synthetic labelled sets, standard and dimension-wise learning, sequences of __call__/test_data with data inside/partly/entirely outside: arg-max clause "
                    "against independently evaluated per-class densities, out-of-range removal, summary consistency, history stability."),
